@@ -9,7 +9,8 @@ EXPL = ("R11.1 count flow: in each of the three observation-capture bodies every
         "R11.2 sibling agreement on a deliberately coarse abstraction: the three capture copies have equal arm tables; the atomic and "
         "non-atomic exponential strategies apply the same scaling, pass the count parameter, filter on count > 0, rebuild Repeated{"
         "scale_down(midpoint)*count, count} and use the same bucket configuration. Pure arithmetic adapters (min/max/casts) are "
-        "ignored. Not decided: the 6.25% / 1/1024 error bounds, sort-and-merge value equality, totals (numeric).")
+        "ignored. R11.3 the sort-and-merge drain groups observations on exact equality only (no tolerance arithmetic feeds the merge decision). "
+        "Not decided: the 6.25% / 1/1024 error bounds, totals (numeric).")
 AG = "metrique_aggregation"
 
 
@@ -176,6 +177,32 @@ def run(ctx):
         rsum[b.path] = s
         ctx.check(s == (True, True, True), "R11.2", fnkey(b) + "#scaled-value-with-count", loc(b),
                   "record_many does not add scale_up(value) with the `count` parameter (value-scaled, count-passed, scales-the-parameter) = %s" % (s,))
+    # ------------------------------------------------------------------ R11.3 sort-and-merge merges on exact equality only
+    sm = [b for b in F.all_bodies(AG) if b.name == "drain" and b.impl and "AggregationStrategy" in (b.impl.get("trait") or "") and
+          any(c.name == "saturating_add" or c.name == "checked_add" for c in b.calls()) and any(c.name in ("sort_by_key", "sort_by", "sort_unstable_by", "sort_unstable_by_key") for c in b.calls())]
+    ctx.floor("R11.3", "sort-and-merge drain", len(sm), 1)
+    for b in sm:
+        pr = Prov(b)
+        bumps = [c for c in b.calls() if c.name in ("saturating_add", "checked_add", "wrapping_add")]
+        okm = False
+        why = "no merge decision found"
+        for c in bumps:
+            for gi, gt, yes, no in controlling_switches(b, c.bb):
+                rv = discr_def(b, gi, gt)
+                if rv is None:
+                    continue
+                if rv.get("k") == "binop":
+                    o = pr.operand(rv["a"]) | pr.operand(rv["b"])
+                    arith = sorted({x[1] for x in o if x[0] == "op" and x[1] in ("Sub", "Add", "Div", "Mul")} | {
+                        (b.term(x[1]).get("callee") or {}).get("name") for x in o if x[0] == "call" and (b.term(x[1]).get("callee") or {}).get("name") in ("abs", "abs_sub", "round", "floor", "ceil", "trunc")})
+                    if rv["op"] == "Eq" and not arith:
+                        okm = True
+                    else:
+                        why = "merge decision is `%s` over %s" % (rv["op"], arith or "values")
+                elif rv.get("k") == "call" and (rv["term"].get("callee") or {}).get("name") in ("eq", "total_cmp", "cmp", "is_eq"):
+                    okm = True
+        ctx.check(okm, "R11.3", fnkey(b) + "#merges-on-exact-equality", loc(b),
+                  "sort-and-merge groups observations by something else than exact equality (%s): distinct recorded values would be reported as one" % why)
     # same configuration everywhere
     cfgs = F.callers_of("default_histogram_config", crates=[AG])
     users = sorted({c.body.path.split("::tests::")[0] for c in cfgs if "::tests::" not in c.body.path})
